@@ -6,7 +6,7 @@
     NAMES, so its exact equation is false (Example ckk_names_exact_false: contents differ); proved instead: equal objective value
     for every k and equal sums for k = 2 (PARTIAL; sums for k >= 3, snp, rnp are tested).  Bin completion on named items (repaired code:
     value-level search, then relabelling) is modelled in Model/BinCompletionNamed.v and proved like the others.  Statements only; proofs in Proofs/{Greedy,Packing,Covering,DP,Names,Multifit}Proofs.v. *)
-From Prtpy Require Import Base.Prelude Model.Binner Model.Objectives Model.Greedy Model.Packing Model.Covering Model.KK Model.CG Model.DP Model.CBLDM Model.Multifit Spec.Partition Proofs.GreedyProofs Proofs.PackingProofs Proofs.CoveringProofs Proofs.DPProofs Proofs.KKProofs Proofs.CKKOptimal Proofs.NamesProofs Proofs.MultifitProofs Model.BinCompletion Model.BinCompletionNamed Proofs.BCNamedProofs.
+From Prtpy Require Import Base.Prelude Model.Binner Model.Objectives Model.Greedy Model.Packing Model.Covering Model.KK Model.CG Model.DP Model.CBLDM Model.Multifit Spec.Partition Proofs.GreedyProofs Proofs.PackingProofs Proofs.CoveringProofs Proofs.DPProofs Proofs.KKProofs Proofs.CKKOptimal Proofs.NamesProofs Proofs.MultifitProofs Model.BinCompletion Model.BinCompletionNamed Proofs.BCNamedProofs Model.Balanced Proofs.BalancedProofs.
 
 Theorem C07_greedy_names :
   forall (A : Type) (valueof : A -> Z) (k : nat) (items : list A),
@@ -21,6 +21,13 @@ Theorem C07_roundrobin_names :
   roundrobin (fun v : Z => v) true k (map valueof items).
 Proof. exact @roundrobin_names. Qed.
 Print Assumptions C07_roundrobin_names.
+
+Theorem C07_bidirectional_balanced_names :
+  forall (A : Type) (valueof : A -> Z) (k : nat) (items : list A),
+  map_bins valueof (bidirectional_balanced valueof true k items) =
+  bidirectional_balanced (fun v : Z => v) true k (map valueof items).
+Proof. exact @bidirectional_balanced_names. Qed.
+Print Assumptions C07_bidirectional_balanced_names.
 
 Theorem C07_multifit_names :
   forall (A : Type) (valueof : A -> Z) (it k : nat) (items : list A),
